@@ -204,54 +204,66 @@ Section De.
           -- eapply sel_false_on; [exact Ea|exact Ib|]. left. lia.
   Qed.
 
+  Lemma plain_inv w :
+    match w with WDict _ kvs => Forall (fun kx => dgood2 (snd kx)) kvs | _ => True end ->
+    forall c n, inv n (plain_de E w c n).
+  Proof.
+    intros IH c n. destruct w as [| |tg kvs|l].
+    1,2,4: (simpl; split; [|split]; auto;
+            intros k i Hin; destruct (c_prede (cls E c)); simpl in Hin; [destruct Hin as [Hin|[]]; discriminate|contradiction]).
+    simpl. apply dbody_inv.
+    intros k s Ha. apply assoc_map_some in Ha as [x [Hin Hsx]]. subst s.
+    rewrite Forall_forall in IH. apply (IH (k, x) Hin).
+  Qed.
+
+  Lemma dfail_inv n : inv n (dfail n).
+  Proof. simpl. split; [|split]; auto using evs_in_nil. Qed.
+
+  Lemma dispatch_inv tg wf vs (fd: nat -> D) :
+    (forall v n, inv n (fd v n)) -> forall n, inv n (dispatch E tg wf vs fd n).
+  Proof.
+    intros Hfd n. unfold dispatch. destruct wf.
+    - destruct tg as [[t|]|]; try apply dfail_inv.
+      destruct (lookup_tag E vs t); [apply Hfd|apply dfail_inv].
+    - apply dtry_inv. apply Forall_forall. intros d Hd.
+      apply in_map_iff in Hd as [v [Hd _]]. subst d. intros n0. apply Hfd.
+  Qed.
+
+  Lemma call_dc_inv w :
+    match w with WDict _ kvs => Forall (fun kx => dgood2 (snd kx)) kvs | _ => True end ->
+    forall c n, inv n (call_dc_de E w c n).
+  Proof.
+    intros IH c n. unfold call_dc_de. destruct (c_disc (cls E c)).
+    - apply dispatch_inv. intros v n0. apply plain_inv. exact IH.
+    - apply plain_inv. exact IH.
+  Qed.
+
+  Lemma on_ty_inv w :
+    match w with WDict _ kvs => Forall (fun kx => dgood2 (snd kx)) kvs | _ => True end ->
+    match w with WList l => Forall dgood2 l | _ => True end ->
+    dgood2 w.
+  Proof.
+    intros IHd IHl. unfold dgood2. induction t; intros n.
+    - rewrite unpack_TInt. destruct w; simpl; (split; [|split]); auto using evs_in_nil, okres_nil.
+    - rewrite unpack_TDc. apply call_dc_inv. exact IHd.
+    - rewrite unpack_TList. destruct w as [| |tg kvs|l]; try apply dfail_inv.
+      pose proof (dseq_inv (map (fun x => unpack E x t) l)) as Hd.
+      assert (Forall (fun d : D => forall n : nat, inv n (d n)) (map (fun x => unpack E x t) l)) as Hall.
+      { apply Forall_forall. intros d Hin. apply in_map_iff in Hin as [x [Hx Hin]]. subst d.
+        rewrite Forall_forall in IHl. intros n0. apply (IHl x Hin). }
+      specialize (Hd Hall n).
+      destruct (dseq (map (fun x => unpack E x t) l) n) as [[[vs|] tr] n1]; destruct Hd as [H1 [Ev Ok]];
+        simpl; (split; [|split]); auto.
+    - rewrite unpack_TOpt. destruct w; try apply IHt.
+      simpl. split; [|split]; auto using evs_in_nil, okres_nil.
+    - rewrite unpack_TUnion. apply dtry_inv. apply Forall_forall. intros d Hd.
+      apply in_map_iff in Hd as [c [Hd _]]. subst d. intros n0. apply call_dc_inv. exact IHd.
+    - rewrite unpack_TDisc. apply dispatch_inv. intros v n0. apply plain_inv. exact IHd.
+  Qed.
+
   Theorem unpack_inv : forall w, dgood2 w.
   Proof.
-    induction w as [| | kvs IHk | l IHl] using wire_ind'; unfold dgood2.
-    - induction t; intros n.
-      + simpl. split; [|split]; auto using evs_in_nil, okres_nil.
-      + rewrite unpack_TDc. simpl. split; [|split]; auto.
-        intros k i Hin. destruct (c_prede (cls E c)); simpl in Hin; [destruct Hin as [Hin|[]]; discriminate|contradiction].
-      + rewrite unpack_TList. simpl. split; [|split]; auto using evs_in_nil.
-      + rewrite unpack_TOpt. apply IHt.
-      + rewrite unpack_TUnion. apply dtry_inv. apply Forall_forall. intros d Hd.
-        apply in_map_iff in Hd as [c [Hd _]]. subst d. intros n0. simpl. split; [|split]; auto.
-        intros k i Hin. destruct (c_prede (cls E c)); simpl in Hin; [destruct Hin as [Hin|[]]; discriminate|contradiction].
-    - induction t; intros n.
-      + rewrite unpack_TInt. simpl. split; [|split]; auto using evs_in_nil.
-      + rewrite unpack_TDc. simpl. split; [|split]; auto.
-        intros k i Hin. destruct (c_prede (cls E c)); simpl in Hin; [destruct Hin as [Hin|[]]; discriminate|contradiction].
-      + rewrite unpack_TList. simpl. split; [|split]; auto using evs_in_nil.
-      + rewrite unpack_TOpt. simpl. split; [|split]; auto using evs_in_nil, okres_nil.
-      + rewrite unpack_TUnion. apply dtry_inv. apply Forall_forall. intros d Hd.
-        apply in_map_iff in Hd as [c [Hd _]]. subst d. intros n0. simpl. split; [|split]; auto.
-        intros k i Hin. destruct (c_prede (cls E c)); simpl in Hin; [destruct Hin as [Hin|[]]; discriminate|contradiction].
-    - assert (forall k s, assoc k (dsubs_of E kvs) = Some s -> forall t n, inv n (s t n)) as Hsubs.
-      { intros k s Ha. apply assoc_map_some in Ha as [x [Hin Hsx]]. subst s.
-        rewrite Forall_forall in IHk. apply (IHk (k, x) Hin). }
-      induction t; intros n.
-      + rewrite unpack_TInt. simpl. split; [|split]; auto using evs_in_nil.
-      + rewrite unpack_TDc. simpl. apply dbody_inv. exact Hsubs.
-      + rewrite unpack_TList. simpl. split; [|split]; auto using evs_in_nil.
-      + rewrite unpack_TOpt. apply IHt.
-      + rewrite unpack_TUnion. apply dtry_inv. apply Forall_forall. intros d Hd.
-        apply in_map_iff in Hd as [c [Hd _]]. subst d. intros n0. simpl. apply dbody_inv. exact Hsubs.
-    - induction t; intros n.
-      + rewrite unpack_TInt. simpl. split; [|split]; auto using evs_in_nil.
-      + rewrite unpack_TDc. simpl. split; [|split]; auto.
-        intros k i Hin. destruct (c_prede (cls E c)); simpl in Hin; [destruct Hin as [Hin|[]]; discriminate|contradiction].
-      + rewrite unpack_TList.
-        pose proof (dseq_inv (map (fun x => unpack E x t) l)) as Hd.
-        assert (Forall (fun d : D => forall n : nat, inv n (d n)) (map (fun x => unpack E x t) l)) as Hall.
-        { apply Forall_forall. intros d Hin. apply in_map_iff in Hin as [x [Hx Hin]]. subst d.
-          rewrite Forall_forall in IHl. intros n0. apply (IHl x Hin). }
-        specialize (Hd Hall n).
-        destruct (dseq (map (fun x => unpack E x t) l) n) as [[[vs|] tr] n1]; destruct Hd as [H1 [Ev Ok]].
-        * simpl. split; [|split]; auto.
-        * simpl. split; [|split]; auto.
-      + rewrite unpack_TOpt. apply IHt.
-      + rewrite unpack_TUnion. apply dtry_inv. apply Forall_forall. intros d Hd.
-        apply in_map_iff in Hd as [c [Hd _]]. subst d. intros n0. simpl. split; [|split]; auto.
-        intros k i Hin. destruct (c_prede (cls E c)); simpl in Hin; [destruct Hin as [Hin|[]]; discriminate|contradiction].
+    induction w as [| |tg kvs IHk | l IHl] using wire_ind'; apply on_ty_inv; auto.
   Qed.
 End De.
 
